@@ -10,9 +10,9 @@ import warnings
 
 from .. import driver, par
 from ..codec import enc, dec
-from ..corr import parsercorr
+from ..corr import parsercorr, statefulparse
 from ..gen import docstrings as G
-from ..shrink import shrink_strings
+from ..shrink import shrink_strings, shrink_list
 
 LEAN_TARGETS = ['XdocModel.Proofs.C14', 'XdocModel.Pins.Parser', 'XdocModel.Pins.CoreExamples']
 MANIFEST = {
@@ -306,8 +306,23 @@ def _shard(args):
             break
         if rejected and len(out['samples']) < 1:
             out['samples'].append({'op': 'parse+docexamples', 'docstring': text, 'outcome': rclass})
+    # ---- stateful: containment must not depend on what was parsed / collected / run before in this process
+    out['seq'] = []
+    for _ in range(max(1, len(cases) // 250)):
+        pool = []
+        for _k in range(rng.randint(1, 3)):
+            r = rng.random()
+            pool.append(rng.choice(BROKEN_BODIES) if r < 0.3 else G.fuzz_docstring(rng) if r < 0.6 else
+                        gen_google(rng)[0] if r < 0.8 else 'Intro.\n\n' + rng.choice(VALID_BODIES))
+        sdocs, ops = statefulparse.gen_sequence(rng, docs=pool)
+        probs = [p for p in statefulparse.run_sequence(sdocs, ops) if 're-join oracle' not in p['what']]
+        out['n'] += len(ops)
+        out['tags']['stateful:ops'] = out['tags'].get('stateful:ops', 0) + len(ops)
+        if probs:
+            out['seq'].append((sdocs, [list(o) for o in ops], probs[:3]))
     out['dis'] = out['dis'][:20]
     out['exp'] = out['exp'][:40]
+    out['seq'] = out['seq'][:5]
     return out
 
 
@@ -515,6 +530,10 @@ def correspondence(ctx, corr):
                              'containment: parts or DoctestParseError; warning and no example; no hang')
         for s in r['samples'][:1]:
             corr.sample(s)
+        for sdocs, ops, probs in r.get('seq', []):
+            corr.expect_fail('stateful', {'docstrings': sdocs, 'sequence': ops},
+                             'the same outcome (parts / error class, examples, warning) every time, nothing escapes', probs,
+                             'containment must not depend on what happened earlier in the process')
     run_modules(ctx, corr, 40 if ctx.quick else 400)
     run_fault_injection(ctx, corr)
 
@@ -592,6 +611,14 @@ def search(ctx, corr, broken):
     # 1. what the correspondence already saw
     for e in corr.expect_failures:
         i = e['input']
+        if 'sequence' in i:
+            probs = _seq_problems(i['docstrings'], i['sequence'])
+            if probs:
+                ops = shrink_list(i['sequence'], lambda o: bool(_seq_problems(i['docstrings'], o)), max_steps=100)
+                found.append({'input': {'docstrings': i['docstrings'], 'sequence': ops},
+                              'observed': (_seq_problems(i['docstrings'], ops) or probs)[0],
+                              'expected_by_spec': 'the same contained outcome every time', 'api': 'the sequence of calls, in one process'})
+            continue
         if i.get('inject'):
             f = _fails_injected(i['docstring'], i['style'])
             if f:
@@ -709,6 +736,8 @@ def _is_kc14b(text, style):
 
 def classify(ctx, hit):
     i = hit.get('input') or {}
+    if 'sequence' in i:
+        return None
     text, style = i.get('docstring'), i.get('style')
     if not isinstance(text, str):
         return None
@@ -751,8 +780,17 @@ def _fails_injected(text, style):
     return None
 
 
+def _seq_problems(docs, ops):
+    # the re-join oracle belongs to C13 (and has its own known classes); C14 looks at escapes, hangs and history dependence
+    return [p for p in statefulparse.fails_sequence(docs, ops) if 're-join oracle' not in p['what']]
+
+
 def replay(ctx, failing):
     i = failing['input']
+    if 'sequence' in i:
+        probs = _seq_problems(i['docstrings'], i['sequence'])
+        print('input: docstrings=%r\n       sequence=%r\n -> %s' % (i['docstrings'], i['sequence'], probs[0] if probs else 'same contained outcome every time'))
+        return bool(probs)
     if i.get('inject'):
         f = _fails_injected(i['docstring'], i['style'])
         print('input: docstring=%r style=%s, splitter raising MalformedDocstr -> %s' % (i['docstring'], i['style'], f or 'contained'))
@@ -763,7 +801,9 @@ def replay(ctx, failing):
         return f is not None
     if i.get('by_construction'):
         exs, warned, esc = real_docexamples(i['docstring'], i['style'])
-        bad = esc != 'none' or bool(exs) or not warned
+        # what is recorded as the known finding K-C14-a (the blocks before the bad one are kept, WITH the warning) is not a
+        # failure of this replay: it must tell the tree that produced the violation from the unchanged one
+        bad = esc != 'none' or ((bool(exs) or not warned) and not _is_kc14a(i['docstring'], i['style']))
         print('input: docstring=%r style=%s -> %s' % (i['docstring'], i['style'], canon_real(exs, warned, esc)))
         return bad
     f = _fails(i['docstring'], i.get('style'))
